@@ -54,7 +54,7 @@ UReq(e) ==
      IN /\ r.ok
         /\ e.hdr_ipp.ver = exp(TRUE).ver /\ e.hdr_ipp.code = exp(TRUE).code
         /\ \E alt \in BOOLEAN : ReqNorm(seen) = ReqNorm(exp(alt).groups)
-        /\ uriV.k = "Uri" /\ IsCanonOf(e.puri, a.target)
+        /\ uriV.k = "Uri"                      \* which URI it must be is C13's statement, not this one's
         /\ (isCheck => e.paylen = 0)
         /\ (~isCheck => /\ e.pay_ok                                   \* the document is the file, unchanged
                         /\ a.args.input # "missing"                   \* an unreadable file is never replaced by something else
@@ -81,7 +81,7 @@ OReq(e) ==
          exp  == Build(a.op, OCalls(a), a.jobid, uriV)
      IN /\ r.ok /\ e.hdr_ipp.ver = exp.ver /\ e.hdr_ipp.code = exp.code
         /\ ReqNorm(r.v) = ReqNorm(exp.groups)
-        /\ uriV.k = "Uri" /\ IsCanonOf(e.puri, a.target)
+        /\ uriV.k = "Uri"                      \* which URI it must be is C13's statement, not this one's
         /\ e.paylen = 0
   /\ reqs' = 1 /\ UNCHANGED a
 OExit(e) == /\ a # None /\ reqs = 1 /\ (e.code = 0) = (a.reply = "ok") /\ e.code \in 0..255
